@@ -1,10 +1,13 @@
 // C06 - linear / affine / quaternion algebra (rkcommon/math/LinearSpace.h, AffineSpace.h, Quaternion.h)
 //
-// One source, three binaries (engine/props_d/C06.py compiles it with -DC06_PART=1|2|3 so the three
-// parts build and run in parallel):
-//   PART 1  C06_linear : LinearSpace2<vec2f|vec2d>, LinearSpace3<vec3f|vec3fa|vec3d>
-//   PART 2  C06_affine : affine2f, affine3f, AffineSpace3fa (+ AffineSpaceT<LinearSpace3<vec3d>>)
-//   PART 3  C06_quat   : quatf, quatd (+ LinearSpace3<vec3f|vec3fa|vec3d> from a quaternion)
+// One source, six binaries (engine/props_d/C06.py compiles it with -DC06_PART=1..6 so the parts build and
+// run in parallel; only the register_partN() of the selected part instantiates anything):
+//   1 C06_linear       LinearSpace2<vec2f|vec2d>, LinearSpace3<vec3f|vec3fa|vec3d>: det/adjoint/inverse/... algebra
+//   2 C06_linear_rot   the same five instantiations: rotate, orthogonal(), frame()
+//   3 C06_affine       affine2f, affine3f, AffineSpace3fa (+ AffineSpaceT<LinearSpace3<vec3d>>): rcp/composition/xfm*
+//   4 C06_affine_build scale/translate/rotate.../lookat
+//   5 C06_quat         quatf, quatd: product/conj/rcp/normalize/rotation of vectors/matrix of a quaternion/rotate(u,r)
+//   6 C06_quat_conv    quaternion from matrix (4 branches), yaw/pitch/roll, slerp
 //
 // ORACLE.  Every expected value is computed in `long double` (64-bit mantissa) by the textbook
 // definition (Leibniz determinant, cofactor adjugate, Rodrigues' formula, Hamilton product
@@ -976,7 +979,46 @@ static RQ unitQuat(const A4 &a)  // total: degenerate -> 1
   return qscale(q, 1 / n);
 }
 
-#if C06_PART == 0 || C06_PART == 1
+// ---- shared by LinearSpace3::rotate and Quaternion::rotate -----------------------------------------
+struct Rot3Case
+{
+  Rot r;
+  int k = 0;  // axis handed over with length 2^k (rotate() normalises it)
+  A3 w{{0, 1, 0}};
+  auto tie()
+  {
+    return std::tie(r, k, w);
+  }
+};
+static rc::Gen<Rot3Case> genRot3Case()
+{
+  return rc::gen::map(rc::gen::tuple(genRot(), rc::gen::weightedElement<int>({{6, 0}, {1, -3}, {1, -1}, {1, 1}, {1, 3}}), genVec<3>(VMAX)),
+      [](const std::tuple<Rot, int, A3> &t) {
+        Rot3Case c;
+        c.r = std::get<0>(t);
+        c.k = std::get<1>(t);
+        c.w = std::get<2>(t);
+        return c;
+      });
+}
+// what a 3x3 must satisfy to be "the proper rotation about u by th", with the implied bounds for a matrix that
+// is entrywise within tol of it: R u = u (sqrt3 tol), R^T R = I (2 sqrt3 tol), det = 1 (3 sqrt3 tol),
+// R w = cos w + sin (u x w) for w _|_ u (sqrt3 tol)
+static void proper_rotation_checks(const std::string &id, const RM<3> &R, const RV<3> &u, L th, const RV<3> &wraw, L tol)
+{
+  CHKVU(DY(id + ":fixes axis"), rmulv(R, u), u, 2 * tol);
+  CHKMU(DY(id + ":RtR=I"), rmul(rtrans(R), R), rident<3>(), 4 * tol);
+  CHK(DY(id + ":det=1"), rdet(R), 1, 6 * tol);
+  RV<3> w = vadd(wraw, vscale(u, -vdot(wraw, u)));
+  if (vlen(w) < 1e-3L) {
+    RV<3> e{{0, 0, 0}};
+    e[fabsl(u[0]) < 0.6L ? 0 : 1] = 1;
+    w = vcross(u, e);
+  }
+  w = vscale(w, 1 / vlen(w));
+  RV<3> want = vadd(vscale(w, cosl(th)), vscale(vcross(u, w), sinl(th)));
+  CHKVU(DY(id + ":turns perpendicular vector by angle"), rmulv(R, w), want, 2 * tol);
+}
 // ============================================================================================
 // PART 1: LinearSpace2 / LinearSpace3
 // ============================================================================================
@@ -1041,22 +1083,22 @@ static void lin_extra(const LS &A, const RM<3> &a, const InvRef<3> &ia, const ty
   const std::string nm = TR::name();
   const L ex = epsXfm<S>();
   // xfmPoint / xfmVector of a linear space = M x.  3 products + 2 sums per component (+ for double the
-  // narrowing of every operand to float): <= 2.5 eps_f * sum|m||x|  -> K = 8
+  // narrowing of every operand to float): <= 2.5 eps_f * sum|m||x|  -> K = 16
   RM<3> aa = rabs(a);
   RV<3> ax = rabs(x);
   RV<3> want = rmulv(a, x), scale = rmulv(aa, ax);
   for (int i = 0; i < 3; ++i)
     scale[i] += 1e-300L;
-  CHKV(ST(nm + ".xfmPoint"), toRef(xfmPoint(A, X)), want, scale, 8 * ex);
-  CHKV(ST(nm + ".xfmVector"), toRef(xfmVector(A, X)), want, scale, 8 * ex);
+  CHKV(ST(nm + ".xfmPoint"), toRef(xfmPoint(A, X)), want, scale, 16 * ex);
+  CHKV(ST(nm + ".xfmVector"), toRef(xfmVector(A, X)), want, scale, 16 * ex);
   // xfmNormal = inverse-transpose times n:  error <= sum_k (eps_T unit_ki |x_k|)   [inverse(), in T]
-  //                                              + 2.5 eps_f sum_k |inv_ki||x_k|     [xfmVector]  -> K = 8 on both
+  //                                              + 2.5 eps_f sum_k |inv_ki||x_k|     [xfmVector]  -> K = 8 resp. 16
   RM<3> it = rtrans(ia.inv);
   RV<3> wantN = rmulv(it, x), tolN;
   RM<3> ut = rtrans(ia.unit), ait = rabs(it);
   RV<3> t1 = rmulv(ut, ax), t2 = rmulv(ait, ax);
   for (int i = 0; i < 3; ++i)
-    tolN[i] = 8 * epsOf<S>() * t1[i] + 8 * ex * t2[i] + 1e-300L;
+    tolN[i] = 8 * epsOf<S>() * t1[i] + 16 * ex * t2[i] + 1e-300L;
   CHKV(ST(nm + ".xfmNormal"), toRef(xfmNormal(A, X)), wantN, tolN, 1);
   if (!std::is_same<S, float>::value) {
     CHKVU(SO(nm + ".xfmPoint.at_double_tolerance"), toRef(xfmPoint(A, X)), want, 8 * epsOf<S>() * (vlen(scale) + 1e-300L));
@@ -1321,45 +1363,6 @@ static void lin2_orthogonal(const MatP2 &p, pbt::Ctx &ctx)
 }
 
 // ---- LinearSpace3::rotate(u, r) ----------------------------------------------------------------------
-struct Rot3Case
-{
-  Rot r;
-  int k = 0;  // axis handed over with length 2^k (rotate() normalises it)
-  A3 w{{0, 1, 0}};
-  auto tie()
-  {
-    return std::tie(r, k, w);
-  }
-};
-static rc::Gen<Rot3Case> genRot3Case()
-{
-  return rc::gen::map(rc::gen::tuple(genRot(), rc::gen::weightedElement<int>({{6, 0}, {1, -3}, {1, -1}, {1, 1}, {1, 3}}), genVec<3>(VMAX)),
-      [](const std::tuple<Rot, int, A3> &t) {
-        Rot3Case c;
-        c.r = std::get<0>(t);
-        c.k = std::get<1>(t);
-        c.w = std::get<2>(t);
-        return c;
-      });
-}
-// what a 3x3 must satisfy to be "the proper rotation about u by th", with the implied bounds for a matrix that
-// is entrywise within tol of it: R u = u (sqrt3 tol), R^T R = I (2 sqrt3 tol), det = 1 (3 sqrt3 tol),
-// R w = cos w + sin (u x w) for w _|_ u (sqrt3 tol)
-static void proper_rotation_checks(const std::string &id, const RM<3> &R, const RV<3> &u, L th, const RV<3> &wraw, L tol)
-{
-  CHKVU(DY(id + ":fixes axis"), rmulv(R, u), u, 2 * tol);
-  CHKMU(DY(id + ":RtR=I"), rmul(rtrans(R), R), rident<3>(), 4 * tol);
-  CHK(DY(id + ":det=1"), rdet(R), 1, 6 * tol);
-  RV<3> w = vadd(wraw, vscale(u, -vdot(wraw, u)));
-  if (vlen(w) < 1e-3L) {
-    RV<3> e{{0, 0, 0}};
-    e[fabsl(u[0]) < 0.6L ? 0 : 1] = 1;
-    w = vcross(u, e);
-  }
-  w = vscale(w, 1 / vlen(w));
-  RV<3> want = vadd(vscale(w, cosl(th)), vscale(vcross(u, w), sinl(th)));
-  CHKVU(DY(id + ":turns perpendicular vector by angle"), rmulv(R, w), want, 2 * tol);
-}
 template <class TR>
 static void lin3_rotate(const Rot3Case &c, pbt::Ctx &ctx)
 {
@@ -1531,6 +1534,9 @@ static void register_part1()
   reg<LinCase<3>>("linear3f_algebra", 60000, genLinCase<3>(), lin_algebra<L3f>);
   reg<LinCase<3>>("linear3fa_algebra", 60000, genLinCase<3>(), lin_algebra<L3fa>);
   reg<LinCase<3>>("linear3d_algebra", 60000, genLinCase<3>(), lin_algebra<L3d>);
+}
+static void register_part2()
+{
   auto g2 = rc::gen::map(rc::gen::tuple(genAngle(), genVec<2>(VMAX)), [](const std::tuple<double, A2> &t) {
     Rot2Case c;
     c.ang = std::get<0>(t);
@@ -1548,10 +1554,8 @@ static void register_part1()
   reg<FrameCase>("linear3fa_frame", 40000, genFrameCase(), lin3_frame<L3fa>);
   reg<FrameCase>("linear3d_frame", 40000, genFrameCase(), lin3_frame<L3d>);
 }
-#endif  // PART 1
 
 
-#if C06_PART == 0 || C06_PART == 2
 // ============================================================================================
 // PART 2: AffineSpaceT
 // ============================================================================================
@@ -1775,7 +1779,8 @@ static void aff_algebra(const AffCase<TR::N> &c, pbt::Ctx &ctx)
     // (A*B)(x) = A(B(x)) with the operators (stays in T for every instantiation, also in 2D)
     RV<N> want = vadd(rmulv(a, vadd(rmulv(b, x), pb)), pa);
     RV<N> scale = vfloor(vadd(vadd(rmulv(aa, rmulv(rabs(b), rabs(x))), rmulv(aa, apb)), apa));
-    V lhs = AB.l * X + AB.p, rhs = A.l * (B.l * X + B.p) + A.p;
+    V lhs = AB.l * X + AB.p, inner = B.l * X + B.p;  // (vec3fa: the sums are unpadded vec3f and convert back)
+    V rhs = A.l * inner + A.p;
     CHKV(ST(nm + ".(A*B)(x) [operators]"), toRef(lhs), want, scale, 16 * eps);
     CHKV(ST(nm + ".A(B(x)) [operators]"), toRef(rhs), want, scale, 16 * eps);
   }
@@ -2076,12 +2081,15 @@ static void aff3_lookat(const LookCase &c, pbt::Ctx &ctx)
   PBT_ASSERT_MSG(vdot(gV, up) > 0, nm << " lookat: V must point to the side of up");
 }
 
-static void register_part2()
+static void register_part3()
 {
   reg<AffCase<2>>("affine2f_algebra", 40000, genAffCase<2>(), aff_algebra<A2f>);
   reg<AffCase<3>>("affine3f_algebra", 40000, genAffCase<3>(), aff_algebra<A3f>);
   reg<AffCase<3>>("affine3fa_algebra", 40000, genAffCase<3>(), aff_algebra<A3fa>);
   reg<AffCase<3>>("affine3d_algebra", 40000, genAffCase<3>(), aff_algebra<A3d>);
+}
+static void register_part4()
+{
   reg<Bld3Case>("affine3f_builders", 30000, genBld3Case(), aff3_builders<A3f>);
   reg<Bld3Case>("affine3fa_builders", 30000, genBld3Case(), aff3_builders<A3fa>);
   reg<Bld3Case>("affine3d_builders", 30000, genBld3Case(), aff3_builders<A3d>);
@@ -2097,7 +2105,564 @@ static void register_part2()
   reg<LookCase>("affine3fa_lookat", 30000, genLookCase(), aff3_lookat<A3fa>);
   reg<LookCase>("affine3d_lookat", 30000, genLookCase(), aff3_lookat<A3d>);
 }
-#endif  // PART 2
+
+
+// ============================================================================================
+// PART 3: QuaternionT
+// ============================================================================================
+template <class S>
+struct QN;
+template <>
+struct QN<float>
+{
+  static std::string name()
+  {
+    return "quatf";
+  }
+};
+template <>
+struct QN<double>
+{
+  static std::string name()
+  {
+    return "quatd";
+  }
+};
+struct QAlgCase
+{
+  A4 a{{1, 0, 0, 0}}, b{{1, 0, 0, 0}};
+  double la = 0, lb = 0;  // log2 |a|, log2 |b| in [-3,3] for the checks that do not need unit quaternions
+  double c = 1;
+  A3 v{{0, 0, 0}};
+  int e = 0;
+  auto tie()
+  {
+    return std::tie(a, b, la, lb, c, v, e);
+  }
+};
+static rc::Gen<QAlgCase> genQAlgCase()
+{
+  return rc::gen::map(rc::gen::tuple(genQuat4(), genQuat4(), sreal(3), sreal(3), genScalar(), genVec<3>(VMAX), pbt::range<int>(0, 3)),
+      [](const std::tuple<A4, A4, double, double, double, A3, int> &t) {
+        QAlgCase c;
+        c.a = std::get<0>(t);
+        c.b = std::get<1>(t);
+        c.la = std::get<2>(t);
+        c.lb = std::get<3>(t);
+        c.c = std::get<4>(t);
+        c.v = std::get<5>(t);
+        c.e = std::get<6>(t);
+        return c;
+      });
+}
+static bool allNonZero(const RQ &q)
+{
+  return q.r != 0 && q.i != 0 && q.j != 0 && q.k != 0;
+}
+static RQ qabs(const RQ &q)
+{
+  return RQ{fabsl(q.r), fabsl(q.i), fabsl(q.j), fabsl(q.k)};
+}
+// sum of |terms| of every component of the Hamilton product
+static RQ qmulAbs(const RQ &a0, const RQ &b0)
+{
+  RQ a = qabs(a0), b = qabs(b0);
+  return RQ{a.r * b.r + a.i * b.i + a.j * b.j + a.k * b.k, a.r * b.i + a.i * b.r + a.j * b.k + a.k * b.j,
+      a.r * b.j + a.i * b.k + a.j * b.r + a.k * b.i, a.r * b.k + a.i * b.j + a.j * b.i + a.k * b.r};
+}
+static void chkq4(Trk &t, const RQ &got, const RQ &want, const RQ &tol, L k, int line)
+{
+  chk1(t, got.r, want.r, k * tol.r + 1e-300L, line, ".r");
+  chk1(t, got.i, want.i, k * tol.i + 1e-300L, line, ".i");
+  chk1(t, got.j, want.j, k * tol.j + 1e-300L, line, ".j");
+  chk1(t, got.k, want.k, k * tol.k + 1e-300L, line, ".k");
+}
+#define CHKQ4(T, got, want, tolQ, k) chkq4(T, got, want, tolQ, (L)(k), __LINE__)
+static bool exactEq(const RQ &a, const RQ &b)
+{
+  return a.r == b.r && a.i == b.i && a.j == b.j && a.k == b.k;
+}
+static std::string show(const RQ &q)
+{
+  std::ostringstream os;
+  os.precision(10);
+  os << "{r " << (double)q.r << " i " << (double)q.i << " j " << (double)q.j << " k " << (double)q.k << "}";
+  return os.str();
+}
+
+// matrix of a unit quaternion in one LinearSpace3 instantiation
+template <class V, class S>
+static void quat_matrix(const std::string &nm, const QuaternionT<S> &Q, const RV<3> &v)
+{
+  using LS = LinearSpace3<V>;
+  const L eps = epsOf<S>();
+  const RQ q = toRef(Q);
+  const LS M(Q);
+  // entries: sums of 4 products of components (|q| = 1 => sum|terms| <= 1): <= 2 eps;  K = 16
+  CHKMU(DY(nm + ":LinearSpace3(q)"), toRef(M), qmat(q), 16 * eps);
+  // q*v (Hamilton) and M(q) v are the same rotation: both sides from rkcommon
+  RV<3> want = qrot(q, v);
+  L lv = vlen(v) + 1e-300L;
+  CHKVU(DY(nm + ":LinearSpace3(q)*v"), toRef(M * mkV<V>(v)), want, 48 * eps * lv);
+}
+
+template <class S>
+static void quat_algebra(const QAlgCase &c, pbt::Ctx &ctx)
+{
+  using Q = QuaternionT<S>;
+  using V = typename Q::Vector;
+  const std::string nm = QN<S>::name();
+  const L eps = epsOf<S>(), fl = rsqrtFloor<S>();
+  const RQ ua = unitQuat(c.a), ub = unitQuat(c.b);
+  const Q Au = mkQ<S>(ua), Bu = mkQ<S>(ub);                                                           // unit (rounded)
+  const Q A = mkQ<S>(qscale(ua, exp2l((L)fin(c.la, -3, 3)))), B = mkQ<S>(qscale(ub, exp2l((L)fin(c.lb, -3, 3))));  // |.| in [1/8,8]
+  const RQ a = toRef(A), b = toRef(B), au = toRef(Au), bu = toRef(Bu);
+  const S C = (S)scalarOf(c.c);
+  const V Vv = mkV<V>(vecOf(c.v, VMAX));
+  const RV<3> v = toRef(Vv);
+  const L na = sqrtl(qdot(a, a)), nb = sqrtl(qdot(b, b));
+  ctx.nt(allNonZero(au) && allNonZero(bu));
+  ctx.label(allNonZero(au) ? "a: all components non-zero" : "a: has zero component");
+
+  // ---- constructors / accessors: exact -----------------------------------------------------------------------
+  {
+    PBT_ASSERT_MSG(A.r == (S)a.r && A.i == (S)a.i && A.j == (S)a.j && A.k == (S)a.k, nm << " (r,i,j,k) constructor");
+    Q s1(C);
+    PBT_ASSERT_MSG(exactEq(toRef(s1), RQ{(L)C, 0, 0, 0}), nm << " QuaternionT(r)");
+    Q s2(Vv);
+    PBT_ASSERT_MSG(exactEq(toRef(s2), RQ{0, v[0], v[1], v[2]}), nm << " QuaternionT(Vector)");
+    Q s3(C, Vv);
+    PBT_ASSERT_MSG(exactEq(toRef(s3), RQ{(L)C, v[0], v[1], v[2]}) && exactEq(toRef(s3.v()), v), nm << " QuaternionT(r,Vector) / v()");
+    Q z(zero), o(one), cp(A), as;
+    as = B;
+    as = A;
+    PBT_ASSERT_MSG(exactEq(toRef(z), RQ{0, 0, 0, 0}) && exactEq(toRef(o), RQ{1, 0, 0, 0}) && exactEq(toRef(cp), a) && exactEq(toRef(as), a), nm << " zero/one/copy/assign");
+  }
+  // ---- Hamilton product: 4 products + 3 sums per component: <= 2 eps sum|terms|, K = 16 -----------------------
+  {
+    RQ want = qmul(a, b), sc = qmulAbs(a, b);
+    CHKQ4(ST(nm + ".a*b"), toRef(A * B), want, sc, 16 * eps);
+    CHKQ4(ST(nm + ".xfmQuaternion"), toRef(xfmQuaternion(A, B)), want, sc, 16 * eps);
+    Q t = A;
+    t *= B;
+    CHKQ4(ST(nm + ".a*=b"), toRef(t), want, sc, 16 * eps);
+    // the product is not commutative: b*a is the product with the cross term reversed
+    CHKQ4(ST(nm + ".b*a"), toRef(B * A), qmul(b, a), sc, 16 * eps);
+  }
+  // ---- exact componentwise operations ----------------------------------------------------------------------------
+  {
+    PBT_ASSERT_MSG(exactEq(toRef(conj(A)), RQ{a.r, -a.i, -a.j, -a.k}), nm << " conj");
+    PBT_ASSERT_MSG(exactEq(toRef(-A), RQ{-a.r, -a.i, -a.j, -a.k}) && exactEq(toRef(+A), a), nm << " unary -/+");
+    auto ex4 = [&](const Q &g, S r, S i, S j, S k) { return g.r == r && g.i == i && g.j == j && g.k == k; };
+    PBT_ASSERT_MSG(ex4(A + B, A.r + B.r, A.i + B.i, A.j + B.j, A.k + B.k), nm << " a+b");
+    PBT_ASSERT_MSG(ex4(A - B, A.r - B.r, A.i - B.i, A.j - B.j, A.k - B.k), nm << " a-b");
+    PBT_ASSERT_MSG(ex4(C + A, C + A.r, A.i, A.j, A.k) && ex4(A + C, A.r + C, A.i, A.j, A.k), nm << " scalar+q / q+scalar");
+    PBT_ASSERT_MSG(ex4(C - A, C - A.r, -A.i, -A.j, -A.k) && ex4(A - C, A.r - C, A.i, A.j, A.k), nm << " scalar-q / q-scalar");
+    PBT_ASSERT_MSG(ex4(C * A, C * A.r, C * A.i, C * A.j, C * A.k) && ex4(A * C, A.r * C, A.i * C, A.j * C, A.k * C), nm << " scalar*q / q*scalar");
+    Q t = A;
+    t += B;
+    PBT_ASSERT_MSG(t == A + B, nm << " +=");
+    t = A;
+    t -= B;
+    PBT_ASSERT_MSG(t == A - B, nm << " -=");
+    t = A;
+    t += C;
+    PBT_ASSERT_MSG(t == A + C, nm << " += scalar");
+    t = A;
+    t -= C;
+    PBT_ASSERT_MSG(t == A - C, nm << " -= scalar");
+    t = A;
+    t *= C;
+    PBT_ASSERT_MSG(t == A * C, nm << " *= scalar");
+    // scalar of the other floating type (only float*quatd / quatd*float compile): result in double, exact product
+    if (std::is_same<S, double>::value) {
+      float cf = (float)C;
+      auto m1 = cf * A;
+      auto m2 = A * cf;
+      PBT_ASSERT_MSG((double)m1.r == (double)cf * (double)A.r && (double)m1.k == (double)cf * (double)A.k && (double)m2.i == (double)A.i * (double)cf && (double)m2.j == (double)A.j * (double)cf,
+          nm << " mixed float*quatd");
+    }
+  }
+  // ---- == / != ---------------------------------------------------------------------------------------------------------
+  {
+    PBT_ASSERT_MSG(A == A && !(A != A), nm << " a==a");
+    PBT_ASSERT_MSG((A == B) == exactEq(a, b) && (A != B) == !exactEq(a, b), nm << " a==b / a!=b");
+    RQ p = a;
+    L *el[4] = {&p.r, &p.i, &p.j, &p.k};
+    int e = ((c.e % 4) + 4) % 4;
+    *el[e] += (*el[e] == 0 ? 1 : *el[e]);
+    Q P = mkQ<S>(p);
+    PBT_ASSERT_MSG(!(A == P) && (A != P), nm << " ==/!= ignore component " << e);
+  }
+  // ---- abs, dot -----------------------------------------------------------------------------------------------------------
+  // abs: sum of 4 squares (<= 2 eps rel), sqrt (<= 0.75 eps): <= 1.75 eps |a|, K = 8;   dot: <= 2 eps sum|terms|, K = 16
+  CHK(ST(nm + ".abs"), abs(A), na, 8 * eps * na);
+  CHK(ST(nm + ".dot"), dot(A, B), qdot(a, b), 16 * eps * qdot(qabs(a), qabs(b)) + 1e-300L);
+  // ---- rcp / normalize / division: through rcp(S)/rsqrt(S) => floor -------------------------------------------------------
+  {
+    RQ ia = qscale(qconj(a), 1 / (na * na)), ib = qscale(qconj(b), 1 / (nb * nb));
+    CHKQ(ST(nm + ".rcp(a)"), toRef(rcp(A)), ia, (fl + 8 * eps) / na);
+    CHKQ(ST(nm + ".a*rcp(a)=1"), toRef(A * rcp(A)), (RQ{1, 0, 0, 0}), 2 * fl + 32 * eps);
+    CHKQ(ST(nm + ".normalize(a)"), toRef(normalize(A)), qscale(a, 1 / na), fl + 8 * eps);
+    CHK(ST(nm + ".|normalize(a)|=1"), sqrtl(qdot(toRef(normalize(A)), toRef(normalize(A)))), 1, 2 * fl + 16 * eps);
+    RQ wq = qmul(a, ib);
+    CHKQ(ST(nm + ".a/b"), toRef(A / B), wq, (fl + 32 * eps) * na / nb);
+    Q t = A;
+    t /= B;
+    CHKQ(ST(nm + ".a/=b"), toRef(t), wq, (fl + 32 * eps) * na / nb);
+    CHKQ(ST(nm + ".scalar/a"), toRef(C / A), qscale(ia, (L)C), (fl + 16 * eps) * fabsl((L)C) / na);
+    CHKQ(ST(nm + ".a/scalar"), toRef(A / C), qscale(a, 1 / (L)C), (fl + 16 * eps) * na / fabsl((L)C));
+    t = A;
+    t /= C;
+    CHKQ(ST(nm + ".a/=scalar"), toRef(t), qscale(a, 1 / (L)C), (fl + 16 * eps) * na / fabsl((L)C));
+  }
+  // ---- rotation of a vector by a unit quaternion: q (0,v) conj(q) ---------------------------------------------------
+  // two Hamilton products, each <= 2 eps sum|terms| <= 2 eps*2|v| => <= ~6 eps |v|;  K = 32
+  {
+    RV<3> want = qrot(au, v);
+    L lv = vlen(v) + 1e-300L;
+    CHKVU(ST(nm + ".q*v"), toRef(Au * Vv), want, 32 * eps * lv);
+    CHKVU(ST(nm + ".xfmPoint(q,v)"), toRef(xfmPoint(Au, Vv)), want, 32 * eps * lv);
+    CHKVU(ST(nm + ".xfmNormal(q,v)"), toRef(xfmNormal(Au, Vv)), want, 32 * eps * lv);
+    // it is a rotation: length preserved (|q|^2 = 1 +- 2 eps)
+    CHK(ST(nm + ".|q*v|=|v|"), vlen(toRef(Au * Vv)), vlen(v), 40 * eps * lv);
+  }
+  // ---- matrix of a unit quaternion -----------------------------------------------------------------------------------------
+  quat_matrix<vec_t<S, 3>>(nm + (std::is_same<S, float>::value ? "/linear3f" : "/LinearSpace3<vec3d>"), Au, v);
+  if (std::is_same<S, float>::value)
+    quat_matrix<vec_t<S, 3, true>>(nm + "/linear3fa", Au, v);
+  // composition: M(a*b) = M(a) M(b), rkcommon on both sides.  a*b: 2 eps; M(.) is quadratic: 4*2 eps + 2 eps; product of
+  // two matrices with 2 eps each: 2*sqrt3*2 eps + 1.5*sqrt3 eps  => <= ~20 eps;  K ~ 4: 96 eps
+  {
+    using LS = LinearSpace3<vec_t<S, 3>>;
+    CHKMU(ST(nm + ".M(a*b)=M(a)M(b)"), toRef(LS(Au * Bu)), toRef(LS(Au) * LS(Bu)), 96 * eps);
+    CHKMU(ST(nm + ".M(a*b) vs reference"), toRef(LS(Au * Bu)), qmat(qmul(au, bu)), 48 * eps);
+  }
+}
+
+// ---- Quaternion::rotate(u, r) and LinearSpace3::rotate(u, r) describe the same rotation -------------------------------
+template <class S>
+static void quat_rotate(const Rot3Case &c, pbt::Ctx &ctx)
+{
+  using Q = QuaternionT<S>;
+  using V = typename Q::Vector;
+  using LS = LinearSpace3<V>;
+  const std::string nm = QN<S>::name();
+  const L eps = epsOf<S>(), fl = rsqrtFloor<S>();
+  int k = c.k < -3 ? -3 : c.k > 3 ? 3 : c.k;
+  const V U = mkV<V>(vscale(unitAxis(c.r.ax), ldexpl(1, k)));
+  const S th = (S)angOf(c.r.ang);
+  RV<3> u = toRef(U);
+  u = vscale(u, 1 / vlen(u));
+  ctx.nt(!axisAligned(u) && fabsl((L)th) > 1e-9L);
+  ctx.label(axisAligned(u) ? "axis: coordinate axis" : "axis: generic");
+  const Q q = Q::rotate(U, th);
+  // (cos(r/2), sin(r/2) normalize(u)): libm 1 eps, normalize floor, one product
+  CHKQ(ST(nm + ".rotate(u,r)"), toRef(q), qaxis(u, (L)th), fl + 8 * eps);
+  // its matrix: quadratic in q => 4 (fl + 8 eps) + 16 eps
+  const L tolM = 4 * fl + 48 * eps;
+  const RM<3> M = toRef(LS(q)), R = rodrigues(u, (L)th);
+  CHKMU(ST(nm + ".M(rotate(u,r)) vs Rodrigues"), M, R, tolM);
+  // both rkcommon constructions agree (LinearSpace3::rotate is within fl of R)
+  CHKMU(ST(nm + ".M(Quaternion::rotate)=LinearSpace3::rotate"), M, toRef(LS::rotate(U, th)), tolM + fl);
+  proper_rotation_checks(nm + ".M(rotate(u,r))", M, u, (L)th, vecOf(c.w, VMAX), tolM);
+  // and it turns vectors like the matrix does
+  const V W = mkV<V>(vecOf(c.w, VMAX));
+  RV<3> w = toRef(W);
+  CHKVU(ST(nm + ".rotate(u,r)*w"), toRef(q * W), rmulv(R, w), (tolM + 32 * eps) * (vlen(w) + 1e-300L) * 2);
+}
+
+// ---- quaternion from a rotation matrix: every branch ---------------------------------------------------------------------------
+struct QMatCase
+{
+  int mode = 0;  // 0: rotation given by axis/angle; 1: by a unit quaternion
+  Rot r;
+  A4 q{{1, 0, 0, 0}};
+  auto tie()
+  {
+    return std::tie(mode, r, q);
+  }
+};
+static rc::Gen<QMatCase> genQMatCase()
+{
+  return rc::gen::map(rc::gen::tuple(rc::gen::weightedElement<int>({{7, 0}, {3, 1}}), genRot(), genQuat4()), [](const std::tuple<int, Rot, A4> &t) {
+    QMatCase c;
+    c.mode = std::get<0>(t);
+    c.r = std::get<1>(t);
+    c.q = std::get<2>(t);
+    return c;
+  });
+}
+// the branch QuaternionT(vx,vy,vz) takes, recomputed with the same comparisons in T
+template <class V>
+static int qbranch(const V &vx, const V &vy, const V &vz)
+{
+  using S = typename V::scalar_t;
+  if (vx.x + vy.y + vz.z >= S(0))
+    return 0;
+  if (vx.x >= std::max(vy.y, vz.z))
+    return 1;
+  if (vy.y >= vz.z)
+    return 2;
+  return 3;
+}
+template <class S>
+static void quat_from_matrix(const QMatCase &c, pbt::Ctx &ctx)
+{
+  using Q = QuaternionT<S>;
+  using V = typename Q::Vector;
+  using LS = LinearSpace3<V>;
+  const std::string nm = QN<S>::name();
+  const L eps = epsOf<S>(), fl = rsqrtFloor<S>();
+  static const char *bn[4] = {"branch 0 (trace>=0, r largest)", "branch 1 (i from vx.x)", "branch 2 (j from vy.y)", "branch 3 (k from vz.z)"};
+  const bool byAxis = (c.mode & 1) == 0;
+  const RV<3> u = unitAxis(c.r.ax);
+  const L th = angOf(c.r.ang);
+  const RQ qr = byAxis ? qaxis(u, th) : unitQuat(c.q);  // exactly unit (to 1e-19)
+  ctx.nt(allNonZero(qr) && fabsl(qr.r) < 0.999999L);
+  ctx.label(byAxis ? "rotation from axis/angle" : "rotation from unit quaternion");
+  // (1) matrix = exact rotation matrix of qr rounded to T: entries carry eps/2; t = 1 + (..) - (..) >= ~1 in every branch
+  //     (trace < 0 => the largest of i^2,j^2,k^2 is >= 1/4 => t = 4 max >= 1), so rsqrt(t) is well conditioned:
+  //     each component <= ~4 eps + the rsqrt floor.   tol = floor + 16 eps
+  {
+    const LS M = mkLS<LS>(qmat(qr));
+    int br = qbranch(M.vx, M.vy, M.vz);
+    ctx.label(bn[br]);
+    const Q got(M.vx, M.vy, M.vz);
+    CHKQPM(DY(nm + ".Quaternion(M(q)) " + bn[br]), toRef(got), qr, fl + 16 * eps);
+    // sign convention of each branch: the component computed from t is positive
+    L lead = br == 0 ? got.r : br == 1 ? got.i : br == 2 ? got.j : got.k;
+    PBT_ASSERT_MSG(lead > 0, nm << " " << bn[br] << ": leading component must be positive, got " << show(toRef(got)));
+    // padded vectors convert to the unpadded ones the constructor takes
+    if (std::is_same<S, float>::value) {
+      const LinearSpace3<vec_t<S, 3, true>> Ma = mkLS<LinearSpace3<vec_t<S, 3, true>>>(qmat(qr));
+      const Q gota(Ma.vx, Ma.vy, Ma.vz);
+      PBT_ASSERT_MSG(gota == got, nm << " Quaternion from vec3fa columns differs from vec3f columns");
+    }
+  }
+  // (2) round trip through rkcommon's own quaternion -> matrix: q rounded to T (eps/2), matrix entries 2 eps, then as (1)
+  //     with input error 2.5 eps amplified by <= 2 (|d comp| <= (|da|+|db|) s + |comp| dt/2t, s <= 1/2): tol = floor + 32 eps
+  {
+    const Q qT = mkQ<S>(qr);
+    const LS M(qT);
+    int br = qbranch(M.vx, M.vy, M.vz);
+    const Q got(M.vx, M.vy, M.vz);
+    CHKQPM(DY(nm + ".Quaternion(LinearSpace3(q)) " + bn[br]), toRef(got), qr, fl + 32 * eps);
+  }
+  // (3) from LinearSpace3::rotate(u, r): matrix within floor of the exact rotation => 2 floors + 32 eps
+  if (byAxis) {
+    const V U = mkV<V>(u);
+    const S thT = (S)th;
+    RV<3> uu = toRef(U);
+    uu = vscale(uu, 1 / vlen(uu));
+    const LS M = LS::rotate(U, thT);
+    int br = qbranch(M.vx, M.vy, M.vz);
+    const Q got(M.vx, M.vy, M.vz);
+    CHKQPM(DY(nm + ".Quaternion(LinearSpace3::rotate(u,r)) " + bn[br]), toRef(got), qaxis(uu, (L)thT), 3 * fl + 32 * eps);
+    // ... and equals Quaternion::rotate(u, r) up to sign (both rkcommon)
+    CHKQPM(DY(nm + ".Quaternion(LinearSpace3::rotate(u,r))=+-Quaternion::rotate(u,r) " + bn[br]), toRef(got), toRef(Q::rotate(U, thT)), 4 * fl + 40 * eps);
+  }
+}
+
+// ---- yaw / pitch / roll -------------------------------------------------------------------------------------------------------------
+// Convention implemented by QuaternionT(yaw, pitch, roll) (and pinned by tests/math/test_Quaternion.cpp,
+// T(0, pi/2, -pi/2) == (.5,.5,.5,-.5)):   q = q_y(yaw) * q_x(pitch) * q_z(roll)
+// i.e. roll about z is applied first, then pitch about x, then yaw about y.
+struct YprCase
+{
+  double yaw = 0, pitch = 0, roll = 0;
+  A3 w{{0, 0, 0}};
+  auto tie()
+  {
+    return std::tie(yaw, pitch, roll, w);
+  }
+};
+template <class S>
+static void quat_ypr(const YprCase &c, pbt::Ctx &ctx)
+{
+  using Q = QuaternionT<S>;
+  using V = typename Q::Vector;
+  using LS = LinearSpace3<V>;
+  const std::string nm = QN<S>::name();
+  const L eps = epsOf<S>(), fl = rsqrtFloor<S>();
+  const S ya = (S)angOf(c.yaw), pi = (S)angOf(c.pitch), ro = (S)angOf(c.roll);
+  const RV<3> ex{{1, 0, 0}}, ey{{0, 1, 0}}, ez{{0, 0, 1}};
+  const RQ want = qmul(qmul(qaxis(ey, (L)ya), qaxis(ex, (L)pi)), qaxis(ez, (L)ro));
+  int nz = (ya != 0) + (pi != 0) + (ro != 0);
+  ctx.nt(allNonZero(want) && nz == 3);
+  ctx.label(nz == 3 ? "all three angles non-zero" : nz == 2 ? "two angles non-zero" : "at most one angle non-zero");
+  const Q got(ya, pi, ro);
+  // each component: two products of three sin/cos (libm: 1 eps each) + 2 product roundings => 4 eps per term, sum|terms| <= 1,
+  // one sum: <= 4.5 eps;  K ~ 7: 32 eps
+  CHKQPM(ST(nm + ".Quaternion(yaw,pitch,roll)"), toRef(got), want, 32 * eps);
+  // its matrix = R_y(yaw) R_x(pitch) R_z(roll)
+  const RM<3> Rw = rmul(rmul(rodrigues(ey, (L)ya), rodrigues(ex, (L)pi)), rodrigues(ez, (L)ro));
+  const RM<3> M = toRef(LS(got));
+  CHKMU(ST(nm + ".M(Quaternion(yaw,pitch,roll))=Ry Rx Rz"), M, Rw, 4 * 32 * eps + 16 * eps);
+  // built from rkcommon's rotate(): each factor within floor, two matrix products
+  const LS P = LS::rotate(mkV<V>(ey), ya) * LS::rotate(mkV<V>(ex), pi) * LS::rotate(mkV<V>(ez), ro);
+  CHKMU(ST(nm + ".M(Quaternion(yaw,pitch,roll))=rotate(y)*rotate(x)*rotate(z)"), M, toRef(P), 6 * fl + 160 * eps);
+  const V W = mkV<V>(vecOf(c.w, VMAX));
+  RV<3> w = toRef(W);
+  CHKVU(ST(nm + ".Quaternion(yaw,pitch,roll)*w"), toRef(got * W), rmulv(Rw, w), (4 * 32 * eps + 48 * eps) * (vlen(w) + 1e-300L) * 2);
+}
+
+// ---- slerp ------------------------------------------------------------------------------------------------------------------------
+struct SlerpCase
+{
+  A4 a{{1, 0, 0, 0}}, d{{0, 1, 0, 0}};
+  int mode = 0;  // 0 b = d (independent); 1 b ~ a + mag*d; 2 b ~ -(a + mag*d); 3 b = a; 4 b = -a; 5 b _|_ a;
+                 // 6 |a.b| = 0.9995 -+ 10^mag (the lerp-fallback threshold), sign of a.b from d
+  double mag = -3;  // log10 of the perturbation, [-7,-1]
+  double t = 0.5;
+  auto tie()
+  {
+    return std::tie(a, d, mode, mag, t);
+  }
+};
+static rc::Gen<SlerpCase> genSlerpCase()
+{
+  auto gt = rc::gen::weightedOneOf<double>({{7, ureal(0, 1)}, {3, rc::gen::element(0.0, 1.0, 0.5, 0.25, 1e-3, 0.999)}});
+  return rc::gen::map(rc::gen::tuple(genQuat4(), genQuat4(), rc::gen::weightedElement<int>({{4, 0}, {3, 1}, {2, 2}, {1, 3}, {1, 4}, {1, 5}, {2, 6}}), ureal(-7, -1), gt),
+      [](const std::tuple<A4, A4, int, double, double> &t) {
+        SlerpCase c;
+        c.a = std::get<0>(t);
+        c.d = std::get<1>(t);
+        c.mode = std::get<2>(t);
+        c.mag = std::get<3>(t);
+        c.t = std::get<4>(t);
+        return c;
+      });
+}
+// textbook slerp between unit a and b along the shorter arc: a' = sign(a.b) a, W = angle(a',b),
+//   (sin((1-t)W) a' + sin(tW) b) / sin(W)
+static RQ slerp_ref(L t, const RQ &a0, const RQ &b, bool flip)
+{
+  RQ a = flip ? qscale(a0, -1) : a0;
+  RQ df = qadd(a, qscale(b, -1)), sm = qadd(a, b);
+  L W = 2 * atan2l(sqrtl(qdot(df, df)), sqrtl(qdot(sm, sm)));  // robust angle between unit vectors
+  L wa, wb;
+  if (W < 1e-9L) {
+    wa = 1 - t;
+    wb = t;
+  } else {
+    wa = sinl((1 - t) * W) / sinl(W);
+    wb = sinl(t * W) / sinl(W);
+  }
+  return qadd(qscale(a, wa), qscale(b, wb));
+}
+template <class S>
+static void quat_slerp(const SlerpCase &c, pbt::Ctx &ctx)
+{
+  using Q = QuaternionT<S>;
+  const std::string nm = QN<S>::name();
+  const L eps = epsOf<S>(), fl = rsqrtFloor<S>();
+  const RQ ua = unitQuat(c.a), ud = unitQuat(c.d);
+  L mag = powl(10, (L)fin(c.mag, -7, -1));
+  RQ ub;
+  RQ perp = qadd(ud, qscale(ua, -qdot(ud, ua)));
+  if (sqrtl(qdot(perp, perp)) < 1e-3L)
+    perp = RQ{-ua.i, ua.r, -ua.k, ua.j};  // always orthogonal to ua
+  perp = qunit(perp);
+  switch (((c.mode % 7) + 7) % 7) {
+  case 0:
+    ub = ud;
+    break;
+  case 6: {
+    L cs = 0.9995L + (c.d[1] < 0 ? -1 : 1) * mag * 0.01L;  // 0.9995 -+ [1e-9, 1e-3]
+    ub = qscale(qadd(qscale(ua, cs), qscale(perp, sqrtl(1 - cs * cs))), c.d[0] < 0 ? -1 : 1);
+    break;
+  }
+  case 1:
+    ub = qunit(qadd(ua, qscale(ud, mag)));
+    break;
+  case 2:
+    ub = qscale(qunit(qadd(ua, qscale(ud, mag))), -1);
+    break;
+  case 3:
+    ub = ua;
+    break;
+  case 4:
+    ub = qscale(ua, -1);
+    break;
+  default:  // orthogonal to a (Gram-Schmidt); after rounding the dot product is O(eps) of either sign
+    ub = perp;
+  }
+  const Q A = mkQ<S>(ua), B = mkQ<S>(ub);
+  const RQ a = toRef(A), b = toRef(B);
+  const float tf = (float)fin(c.t, 0, 1);
+  const L t = (L)tf;
+  const L d = qdot(a, b);
+  const bool flip = d < 0;
+  // which branch the implementation takes is decided with d computed in T (error <= 2 eps): classes with margin
+  const bool fallback = fabsl(d) > 0.9995L;
+  const bool nearThr = fabsl(fabsl(d) - 0.9995L) <= 1e-5L;
+  const bool ambiguousSign = d != 0 && fabsl(d) <= 16 * eps;  // a.b ~ 0: both arcs are "the shorter one"
+  ctx.nt(allNonZero(a) && allNonZero(b) && tf > 0 && tf < 1);
+  ctx.label(flip ? "obtuse: sign flip" : "acute: no flip");
+  ctx.label(fallback ? "near-parallel: lerp fallback" : "regular slerp");
+  ctx.label(tf == 0 ? "t=0" : tf == 1 ? "t=1" : "0<t<1");
+  if (nearThr)
+    ctx.label("|d| within 1e-5 of 0.9995");
+  if (ambiguousSign)
+    ctx.label("|d| <= 16 eps (either arc accepted)");
+  const RQ got = toRef(slerp(tf, A, B));
+  // regular branch: d, acos, 2 sin, cos, 1 division, 8 products: the error of d is amplified by 1/sin(W) <= 32 in W but
+  //   the weights depend on W only through sin(tW)/sin(W), whose W-derivative is t(1-t^2)W/3 + O(W^3) -- in total every
+  //   component stays within ~8 eps;   K ~ 8: 64 eps
+  // fallback (|d| > 0.9995, W < 0.0316): normalize(lerp) deviates from slerp by at most 0.0161 W^3 <= 5.1e-7 (maximum of
+  //   t(2t-1)(t-1)/6 is sqrt3/108) plus the rsqrt floor;  tol = 4 * 5.1e-7 + floor + 16 eps   (DESIGN: 1e-5 for float)
+  const L tolReg = 64 * eps, tolFb = 2.04e-6L + fl + 16 * eps;
+  const L tol = (fallback || nearThr) ? tolFb : tolReg;
+  RQ want = slerp_ref(t, a, b, flip);
+  if (ambiguousSign) {
+    RQ alt = slerp_ref(t, a, b, !flip);
+    RQ dd = qadd(got, qscale(want, -1)), da = qadd(got, qscale(alt, -1));
+    if (qdot(da, da) < qdot(dd, dd))
+      want = alt;
+  }
+  CHKQ(DY(nm + (fallback ? ".slerp [lerp fallback]" : ".slerp [regular]")), got, want, tol);
+  // unit length
+  CHK(DY(nm + (fallback ? ".|slerp|=1 [lerp fallback]" : ".|slerp|=1 [regular]")), sqrtl(qdot(got, got)), 1, 2 * tol);
+  // end points: t=0 -> +-a (the sign that makes the arc short), t=1 -> b
+  if (tf == 0 && !ambiguousSign)
+    CHKQ(ST(nm + ".slerp(0,a,b)=+-a"), got, flip ? qscale(a, -1) : a, tol);
+  if (tf == 1)
+    CHKQ(ST(nm + ".slerp(1,a,b)=b"), got, b, tol);
+  // geometric statement: angle(a', slerp) = t W and angle(slerp, b) = (1-t) W  (checked through the dot products, W >= 1e-3)
+  if (!ambiguousSign) {
+    RQ ap = flip ? qscale(a, -1) : a;
+    RQ df = qadd(ap, qscale(b, -1)), sm = qadd(ap, b);
+    L W = 2 * atan2l(sqrtl(qdot(df, df)), sqrtl(qdot(sm, sm)));
+    CHK(DY(nm + (fallback ? ".slerp.a'=cos(tW) [lerp fallback]" : ".slerp.a'=cos(tW) [regular]")), qdot(got, ap), cosl(t * W), 2 * tol);
+    CHK(DY(nm + (fallback ? ".slerp.b=cos((1-t)W) [lerp fallback]" : ".slerp.b=cos((1-t)W) [regular]")), qdot(got, b), cosl((1 - t) * W), 2 * tol);
+  }
+}
+
+static void register_part5()
+{
+  reg<QAlgCase>("quatf_algebra", 50000, genQAlgCase(), quat_algebra<float>);
+  reg<QAlgCase>("quatd_algebra", 50000, genQAlgCase(), quat_algebra<double>);
+  reg<Rot3Case>("quatf_rotate", 40000, genRot3Case(), quat_rotate<float>);
+  reg<Rot3Case>("quatd_rotate", 40000, genRot3Case(), quat_rotate<double>);
+}
+static void register_part6()
+{
+  reg<QMatCase>("quatf_from_matrix", 60000, genQMatCase(), quat_from_matrix<float>);
+  reg<QMatCase>("quatd_from_matrix", 60000, genQMatCase(), quat_from_matrix<double>);
+  auto gy = rc::gen::map(rc::gen::tuple(genAngle(), genAngle(), genAngle(), genVec<3>(VMAX)), [](const std::tuple<double, double, double, A3> &t) {
+    YprCase c;
+    c.yaw = std::get<0>(t);
+    c.pitch = std::get<1>(t);
+    c.roll = std::get<2>(t);
+    c.w = std::get<3>(t);
+    return c;
+  });
+  reg<YprCase>("quatf_yaw_pitch_roll", 40000, gy, quat_ypr<float>);
+  reg<YprCase>("quatd_yaw_pitch_roll", 40000, gy, quat_ypr<double>);
+  reg<SlerpCase>("quatf_slerp", 60000, genSlerpCase(), quat_slerp<float>);
+  reg<SlerpCase>("quatd_slerp", 60000, genSlerpCase(), quat_slerp<double>);
+}
 
 static void register_properties()
 {
@@ -2110,14 +2675,29 @@ static void register_properties()
 #if C06_PART == 0 || C06_PART == 3
   register_part3();
 #endif
+#if C06_PART == 0 || C06_PART == 4
+  register_part4();
+#endif
+#if C06_PART == 0 || C06_PART == 5
+  register_part5();
+#endif
+#if C06_PART == 0 || C06_PART == 6
+  register_part6();
+#endif
 }
 
 #if C06_PART == 1
 PBT_MAIN("C06_linear")
 #elif C06_PART == 2
-PBT_MAIN("C06_affine")
+PBT_MAIN("C06_linear_rot")
 #elif C06_PART == 3
+PBT_MAIN("C06_affine")
+#elif C06_PART == 4
+PBT_MAIN("C06_affine_build")
+#elif C06_PART == 5
 PBT_MAIN("C06_quat")
+#elif C06_PART == 6
+PBT_MAIN("C06_quat_conv")
 #else
 PBT_MAIN("C06_all")
 #endif
